@@ -234,6 +234,16 @@ fn gen_byzantine(run_seed: u64, _tier: Tier) -> (Knobs, Vec<u8>, Vec<usize>, Vec
                 r.opaque = 0xb000 + i as u32;
                 stream.extend(r.encode());
             }
+            5 => {
+                // a store, then a flush whose delay is an extreme of the field
+                let key = keys[rng.usize(keys.len())].clone();
+                let mut st = SymReq::store(op::SET, &key, crate::scenario::Val::Bytes(b"x".to_vec()), 1, *rng.pick(&[0u32, 5, 0xffff_fff0]), crate::scenario::CasSel::Zero);
+                st.opaque = 0xb100 + i as u32;
+                stream.extend(st.materialise(&empty).encode());
+                let mut fl = SymReq::flush(*rng.pick(&[op::FLUSH, op::FLUSHQ]), Some(*rng.pick(&[u32::MAX, u32::MAX - 1, 0x8000_0000, 0xffff_fff0])));
+                fl.opaque = 0xb200 + i as u32;
+                stream.extend(fl.materialise(&empty).encode());
+            }
             3 => {
                 // counters with extreme operands
                 let key = keys[rng.usize(keys.len())].clone();
@@ -270,8 +280,12 @@ fn run_byzantine(knobs: &Knobs, stream: &[u8], cuts: &[usize], keys: &[Vec<u8>],
         d.keep_log = keep_log;
         d.step(&Ev::Connect { c: 0 });
         d.step(&Ev::Raw { c: 0, bytes: stream.to_vec() });
-        for &c in cuts {
+        for (i, &c) in cuts.iter().enumerate() {
             d.step(&Ev::Deliver { c: 0, n: c as u32 });
+            // now and then the clock ticks between two segments (items age before what follows)
+            if (stream.len() + i) % 3 == 0 {
+                d.step(&Ev::Advance { ms: 1100 });
+            }
         }
         d.step(&Ev::Deliver { c: 0, n: u32::MAX });
         // the byzantine client goes silent; the server must not be stuck on it
